@@ -66,7 +66,10 @@ def gen_table(rng, K):
     else:
         models = sorted(rng.sample([1, 2, 10, 100, 999, 1000, K["model_max"]], nm))
     nc = rng.choice([1, 2, 2, 3])
-    chains = rng.sample([_s(c) for c in K["chains"]], nc)
+    pool = [_s(c) for c in K["chains"]]
+    chains = rng.sample([c for c in pool if c != ""], nc)
+    if "" in pool and rng.random() < 0.12:
+        chains[rng.randrange(nc)] = ""          # a blank chain identifier (PDB-only tables, see props/c09._cases)
     if nc >= 2 and rng.random() < 0.15:
         chains = chains + [chains[0]]           # A B A (hetero atoms of chain A at the end)
     replicate = rng.random() < 0.5
